@@ -1,10 +1,11 @@
 #!/bin/bash
-# developer tool: collect round-2 seeds of property $1 from its agent worktree, verify and test them. Names: Cxx-3, Cxx-4.
-P=$1; mkdir -p /tmp/seedkeep2
+# developer tool: collect the seeds of property $1 from its agent worktree (round $2: 2 -> Cxx-3,4 in /tmp/seedkeep2; 3 -> Cxx-5,6 in
+# /tmp/seedkeep3), verify them on /repo HEAD and run the quick check of the property against them.
+P=$1; R=${2:-2}; K=/tmp/seedkeep$R; mkdir -p $K
 for k in 1 2; do
   S=/tmp/seedwt/$P/seed_out/$k; [ -d $S ] || continue
-  D=/tmp/seedkeep2/$P-$((k+2)); rm -rf $D; cp -r $S $D; cp $D/patch.diff $D/patch.rebased.diff
+  D=$K/$P-$((k+2*(R-1))); rm -rf $D; cp -r $S $D; cp $D/patch.diff $D/patch.rebased.diff
   /verif/seedverify.sh $D
-  echo "  check: $(/verif/seedtest.sh $D $P | tail -1) $(grep -c VIOLATION /tmp/seedtest_replays 2>/dev/null)"
+  echo "  check: $(/verif/seedtest.sh $D $P | tail -1)"
 done
 git -C /repo worktree remove --force /tmp/seedwt/$P 2>/dev/null; rm -rf /tmp/seedwt/${P}_scratch
